@@ -358,6 +358,7 @@ harnesses! {
         #[cfg_attr(kani, kani::stub(<std::fs::File as std::io::Write>::write, crate::wfile::stub_file_write))]
         #[cfg_attr(kani, kani::stub(<std::fs::File as std::io::Write>::flush, crate::wfile::stub_file_flush))]
         #[cfg_attr(kani, kani::stub(<std::fs::File as std::io::Seek>::seek, crate::wfile::stub_file_seek))]
+        #[cfg_attr(kani, kani::stub(<std::fs::File as std::io::Seek>::stream_position, crate::wfile::stub_file_stream_position))]
         #[cfg_attr(kani, kani::stub(<std::os::fd::OwnedFd as std::ops::Drop>::drop, crate::wfile::stub_ownedfd_drop))]
         #[cfg_attr(kani, kani::stub(std::fs::create_dir_all, crate::world::fs::stub_create_dir_all))]
         #[cfg_attr(kani, kani::stub(std::fs::rename, crate::world::fs::stub_rename))]
